@@ -25,8 +25,8 @@ func init() {
 		Rule:        "groups of 2-4 keys; one committer per group whose transactions write one fresh token to ALL keys of the group; autocommit writers on solo keys with a monotone counter; RepeatableRead/Serializable reader transactions that read every key and GetKeys two or three times; a collector actor calling DeleteOld continuously, the scheduled collector every few ms, short transactions beginning and ending to move the horizon; seeded perturbation at hook points. Oracle per reader: all keys of a group carry the same token (atomicity), every re-read and every GetKeys repeats (stability), the token lies between the last commit acknowledged before Begin was called and the last commit invoked before Begin returned (freshness), no key ever missing. Plus steered windows: reader Begin between two sequence assignments of one commit; Begin sequence drawn < collector horizon < Begin registered. evaluations = reader transactions judged; distinct_nontrivial = reader transactions that overlapped at least one commit of a group they read + distinct (window, outcome) pairs",
 		Assumptions: []string{"monotonic clock of one process", "single writer per group/solo key makes token order total"},
 		Roles: map[string]Role{
-			"stress": {N: func(t string) int { return tierN(t, 16, 320) }, Case: c08Stress},
-			"window": {N: func(t string) int { return tierN(t, 32, 600) }, Case: c08Window},
+			"stress": {N: func(t string) int { return tierN(t, 16, 960) }, Case: c08Stress},
+			"window": {N: func(t string) int { return tierN(t, 32, 2000) }, Case: c08Window},
 		},
 	})
 }
